@@ -15,6 +15,7 @@ import TantivyModel.Proofs.DocSet.BitSet
 import TantivyModel.Proofs.DocSet.Tree
 import TantivyModel.Proofs.DocSet.BufferedUnionScore
 import TantivyModel.Proofs.DocSet.DisjunctionScore
+import TantivyModel.Proofs.DocSet.ScoreMoves
 import TantivyModel.Model.DocSet.Tree
 /-!
 # C13 — every DocSet is one sorted sequence under any mix of advance and seek
@@ -561,7 +562,37 @@ theorem C13_disjunction_score_path_independent (hA : Lawful A VA WA)
   obtain ⟨b1, b2⟩ := Disj.score_after_moves hA hscore hG hg hk hcs hL hmem ms2 hl2
   rw [a2 (by rw [a1]; exact hlt), b2 (by rw [b1, ← hsame]; exact hlt), a1, b1, hsame]
 
+/-- score of the intersection from `Intersection::new`, after ANY legal mix of `advance` and `seek`:
+`score()` at the current document `d` is the sum of `g c d` over all its children -/
+theorem C13_intersection_score_after_moves (hA : Lawful A VA WA) (g : σ → Nat → Nat)
+    (hG : Inter.Ghost A g) (hg : ∀ c, (A.score c).1 = g c (A.doc c)) (fx : Fix) (dense : Bool)
+    (l r : σ) (os : List σ) (ll lr : List Nat) (los : List (List Nat)) (hL : VA l ll) (hR : VA r lr)
+    (hO : All2 VA os los) (ms : List BUnion.Move)
+    (hl : BUnion.legalMoves (Inter.Common ll lr los) ms) :
+    Inter.doc A (Inter.runMoves A (Inter.new A dense l r os) ms)
+        = Spec.doc (BUnion.specMoves (Inter.Common ll lr los) ms)
+      ∧ (Inter.doc A (Inter.runMoves A (Inter.new A dense l r os) ms) < TERMINATED →
+          ((Inter.ds A fx).score (Inter.runMoves A (Inter.new A dense l r os) ms)).1
+            = (((l :: r :: os).map g).map
+                (fun f => f (Inter.doc A (Inter.runMoves A (Inter.new A dense l r os) ms)))).sum) :=
+  Inter.score_after_moves hA hG hg fx dense hL hR hO ms hl
+
 end combinators
+
+/-- the SUM union over sorted-vector leaves with constant scores (no hypothesis left but sortedness):
+after any legal mix of `advance` and `seek`, `score()` is the sum of the scores of the leaves
+containing the current document -/
+theorem C13_union_of_vecs_score (H : Nat) (hH : 64 ∣ H) (hH0 : 0 < H) (fx : Fix)
+    (children : List (List Nat × Nat)) (hs : ∀ p ∈ children, Sorted p.1) (U : List Nat)
+    (hU : SimpleUnion.IsUnion U (children.map (·.1))) (ms : List BUnion.Move)
+    (hl : BUnion.legalMoves U ms) :
+    let s := BUnion.runMoves fx Vec.ds H
+      (BUnion.build Vec.ds H true (children.map (fun p => Vec.init p.1 p.2))) ms
+    s.doc = Spec.doc (BUnion.specMoves U ms) ∧ (s.doc < TERMINATED →
+      ((BUnion.ds Vec.ds H fx).score s).1
+        = BUnion.gsum (fun c (_ : Nat) => c.score) (children.map (fun p => Vec.init p.1 p.2))
+            (children.map (·.1)) s.doc) :=
+  BUnion.vecs_score hH hH0 fx children hs hU ms hl
 
 /-! ### composition: whole scorer trees, as the driver builds and runs them -/
 
@@ -629,10 +660,10 @@ theorem C13_disjunction_refines_instance :
 /-! ## deviations of the real code, mirrored by the model (each reproduced by the harness
 against the real code and recorded in KNOWN_FINDINGS.txt)
 
-Full statements that are therefore FALSE for the buffered union / dense intersection models:
-  `Lawful (BUnion.ds C H) …` including "after `count` the state is valid for `[]`" and
-  "`score` at `d` does not depend on how `d` was reached";  the proved parts are the generic
-  theorems above, which apply to every implementation that does satisfy the contract. -/
+Statements that are therefore FALSE for the buffered union / dense intersection models (and not part
+of the contract `Lawful` / of the score theorems above): "after `count` the state is valid for `[]`"
+and "`score` at `d` does not depend on how `d` was reached" for call sequences containing
+`fill_buffer`. -/
 
 /-- S4: `fill_buffer` drains the window without clearing the drained slots' combiners; after the
 next refill the stale sums are added to (HORIZON = 64 instance: one child, every doc scores 2;
@@ -763,6 +794,11 @@ example : let s0 := Disj.new Vec.ds true 2 [Vec.init [1, 5, 9] 2, Vec.init [5, 7
     ((Disj.ds Vec.ds).score (Disj.runMoves Vec.ds s0 [.advance])).1 = 9
       ∧ ((Disj.ds Vec.ds).score (Disj.runMoves Vec.ds s0 [.seek 6])).1 = 9
       ∧ ((Disj.ds Vec.ds).score s0).1 = 5 := by decide +kernel
+example : BUnion.gsum (fun c (_ : Nat) => c.score) [Vec.init [1, 5] 2, Vec.init [5, 7] 3] [[1, 5], [5, 7]] 5 = 5 := by
+  decide
+example : let s0 := Inter.new Vec.ds false (Vec.init [1, 5, 9] 2) (Vec.init [5, 9] 3) [Vec.init [0, 5, 7, 9] 4]
+    ((Inter.ds Vec.ds).score (Inter.runMoves Vec.ds s0 [.advance])).1 = 9
+      ∧ Inter.doc Vec.ds (Inter.runMoves Vec.ds s0 [.seek 6]) = 9 := by decide +kernel
 example : Exclude.ok [[5, 7], [9]] 1 = true ∧ Exclude.ok [[5, 7], [9]] 9 = false := by decide
 example : Vec.V (Vec.init [1, 5, 9] 2) [1, 5, 9] := ⟨rfl, by
   refine ⟨by decide, ?_⟩
